@@ -51,13 +51,17 @@ CLAIMED = {
         note="3-D winding = membership is partial (correspondence only); spheropolyhedron cascade is compared against the exact distance spec, not modelled step by step; "
              "boundary margin 1e-9 size."),
     "C06": dict(
-        text="Theorems (any vertex cycle, any query point): the polygon winding answer is invariant under cyclic shifts; reversal negates the turn sum, "
-             "so the answer is orientation-free whenever the turn sum is even (partial: evenness run-time checked); circle norm test = quadratic test; "
+        text="Main theorem (every vertex cycle of any length, every query point on none of the closed segments of the fan from the first vertex): the code's "
+             "turn sum, including its lexicographic tie-breaking for points sharing a coordinate with a vertex, equals the signed fan indicator (sum over fan "
+             "triangles of +-2 for a point strictly inside a ccw/cw triangle), proved via chord cancellation (CycleSplit) and a complete sign analysis of the "
+             "triangle (lexicographic cone + the identity A u + B v + C w = 0); hence is_inside = (indicator != 0) and is orientation-free there. Also: "
+             "invariance under cyclic shifts, reversal negates the turn sum (any point); circle norm test = quadratic test; "
              "Ellipse.is_inside refuted by a computed witness (known finding, pinned by the suite) with the completeness half proved; Paramcoq transfer. "
              "Tie: faithful model of the L/R tie-breaking and the independent crossing-parity spec evaluated in exact rationals on the implementation's "
              "inputs (xy-plane exact frame incl. the mirrored frame kabsch uses for -z normals, exact 3-D placements, (N,2) input), batch vs single.",
         design="§4 C06", technique="Coq proof (list permutation lemmas over cyclic pairs, sign algebra, refutation by vm_compute) + exact-rational correspondence",
-        note="winding number = crossing parity (Jordan-type statement) is not proved, it is the per-point correspondence; known finding ellipse-box-test."),
+        note="points ON a fan chord are outside the main theorem's hypothesis (the fan indicator is then evaluated by the exact crossing-parity oracle per point); that "
+             "the signed fan indicator is the point-set indicator of a simple polygon is the same modelled step as in C04; known finding ellipse-box-test."),
     "C10": dict(
         text="Translator tie: the scalar closed forms of Circle/Ellipse/Sphere/Ellipsoid are regenerated from /repo into Gen/Scalars.v on every run and the "
              "theorems are re-checked against them: area and volume formulas equal the defining polar/spherical iterated Riemann integrals (Coquelicot), "
@@ -184,9 +188,11 @@ CLAIMED = {
         design="§4 C18", technique="data-to-Coq translation + finite-domain proofs by vm_compute + exhaustive correspondence",
         note="reference (V,E,F) table hand-written; geometric facts need the hull and are decided by the exhaustive correspondence (1e-6); known finding science-J86-edge-precision."),
     "C12": dict(
-        text="PARTIAL. Theorems for the code's polygon line-integral formula, every vertex cycle: F(-q) = conj F(q); translation by t multiplies by "
+        text="PARTIAL. Theorems for the code's polygon line-integral formula, every vertex cycle: each edge term IS -i((e x q).n/q^2) times the plane wave "
+             "integrated along the edge (Coquelicot RInt, the sinc closed form proved incl. q.e = 0); the polygon amplitude is the sum of the amplitudes of its "
+             "fan triangles (chord cancellation); F(-q) = conj F(q); translation by t multiplies by "
              "exp(-i q.t); reversing the vertex order negates the line integral (so the as-found code was orientation dependent - refuted - and the "
-             "repaired code with the sign(signed_area) factor is orientation free). Not proved: edge sum = area integral (Green/Stokes), polyhedron and "
+             "repaired code with the sign(signed_area) factor is orientation free). Not proved: boundary integral = area integral (planar divergence theorem), polyhedron and "
              "sphere analogues. Correspondence decides those: implementation vs direct Gauss-Legendre quadrature of exp(-i q.r) over the signed tetrahedra "
              "/ fan triangles / the sphere's radial integral (independent of the Stokes formula) for convex and non-convex solids, polygons in both "
              "orientations and tilted planes, spheres, off-origin; q random, along face normals, perpendicular to edges, along axes, zero; density; "
